@@ -100,3 +100,99 @@ package jschema
 //@   assumes typeis(sc, *Schema) ==> ival(sc) != 0
 //@   maypanic
 //@   modifies *
+
+// ---- C09: "UsedUserTypes returns exactly the set of type names the schema text references, each once" ----
+//@ func (*userTypesCollector).addType(n)
+//@   props C09
+//@   requires utWF(c)
+//@   nopanic
+//@   modifies c.alreadyProcessed[*], c.userTypes, c.userTypes[*]
+//@   ensures utWF(c) && dom(c.alreadyProcessed, n)
+//@   ensures forall q string :: old(dom(c.alreadyProcessed, q)) ==> dom(c.alreadyProcessed, q)
+//@   ensures forall q string :: dom(c.alreadyProcessed, q) ==> old(dom(c.alreadyProcessed, q)) || q == n
+//@   ensures len(c.userTypes) >= old(len(c.userTypes)) && (forall j :: 0 <= j && j < old(len(c.userTypes)) ==> c.userTypes[j] == old(c.userTypes[j]))
+//@   ensures c.userTypes.$arr == old(c.userTypes.$arr) || fresh(c.userTypes)
+
+// every property of an object node is visited, found by its key AS STORED (decoded
+// spelling or shortcut text), and a key shortcut is itself a reference
+//@ func (*userTypesCollector).collectUserTypesObjectNode(node)
+//@   props C09
+//@   requires utWF(c) && node != nil
+//@   assumes keysWF(node.keys) && keysComplete(node.keys) && len(node.children) == len(node.keys.Data) && (forall j :: 0 <= j && j < len(node.children) ==> isNode(node.children[j]) && nodeTreeOK(node.children[j]))
+//@   assumes forall j :: 0 <= j && j < len(node.keys.Data) ==> len(node.keys.Data[j].Key) > 0
+//@   maypanic
+//@   modifies c.alreadyProcessed[*], c.userTypes, c.userTypes[*]
+//@   ensures utWF(c)
+//@   ensures forall q string :: old(dom(c.alreadyProcessed, q)) ==> dom(c.alreadyProcessed, q)
+//@   ensures c.userTypes.$arr == old(c.userTypes.$arr) || fresh(c.userTypes)
+//@   ensures normal ==> (forall j :: 0 <= j && j < len(node.children) ==> utCollected(c, node.children[j]))
+//@   ensures normal ==> (forall j :: 0 <= j && j < len(node.keys.Data) && node.keys.Data[j].IsShortcut && node.keys.Data[j].Key[0] == '@' ==> dom(c.alreadyProcessed, node.keys.Data[j].Key))
+//@   loop 0 invariant utWF(c) && (forall q string :: old(dom(c.alreadyProcessed, q)) ==> dom(c.alreadyProcessed, q))
+//@   loop 0 invariant c.userTypes.$arr == old(c.userTypes.$arr) || fresh(c.userTypes)
+//@   loop 0 invariant forall j :: 0 <= j && j <= rangeindex ==> utCollected(c, node.children[j])
+//@   loop 0 invariant forall j :: 0 <= j && j <= rangeindex && node.keys.Data[j].IsShortcut && node.keys.Data[j].Key[0] == '@' ==> dom(c.alreadyProcessed, node.keys.Data[j].Key)
+
+// (the node-by-node traversal: its own reads of rule values are not verified - TRUSTED
+// frame; "returned normally" is what utCollected records)
+//@ func (*userTypesCollector).collect(node)
+//@   props C09
+//@   trusted "reads rule values of the node (or-list, type, allOf, additionalProperties): only the frame and the monotonicity of the collected set are assumed"
+//@   requires utWF(c) && isNode(node) && nodeTreeOK(node)
+//@   maypanic
+//@   modifies c.alreadyProcessed[*], c.userTypes, c.userTypes[*]
+//@   ensures utWF(c)
+//@   ensures forall q string :: old(dom(c.alreadyProcessed, q)) ==> dom(c.alreadyProcessed, q)
+//@   ensures c.userTypes.$arr == old(c.userTypes.$arr) || fresh(c.userTypes)
+//@   defines normal ==> utCollected(c, node)
+
+// every reference form of a single node is recorded: or-list members, the type rule,
+// allOf parents, the additionalProperties type
+//@ func (*userTypesCollector).collectUserTypesFromTypesListConstraint(node)
+//@   props C09
+//@   requires utWF(c) && isNode(node) && consReady(node)
+//@   assumes typeis(consOf(node).data[constraint.TypesListConstraintType], *constraint.TypesList) ==> ival(consOf(node).data[constraint.TypesListConstraintType]) != 0 && (forall k :: 0 <= k && k < len(unbox(consOf(node).data[constraint.TypesListConstraintType], *constraint.TypesList).innerTypeNames) ==> len(unbox(consOf(node).data[constraint.TypesListConstraintType], *constraint.TypesList).innerTypeNames[k]) > 0) && unbox(consOf(node).data[constraint.TypesListConstraintType], *constraint.TypesList).innerTypeNames.$arr != c.userTypes.$arr
+//@   nopanic
+//@   modifies c.alreadyProcessed[*], c.userTypes, c.userTypes[*]
+//@   ensures utWF(c) && (forall q string :: old(dom(c.alreadyProcessed, q)) ==> dom(c.alreadyProcessed, q))
+//@   ensures c.userTypes.$arr == old(c.userTypes.$arr) || fresh(c.userTypes)
+//@   ensures typeis(consOf(node).data[constraint.TypesListConstraintType], *constraint.TypesList) ==> (forall k :: 0 <= k && k < len(unbox(consOf(node).data[constraint.TypesListConstraintType], *constraint.TypesList).innerTypeNames) && unbox(consOf(node).data[constraint.TypesListConstraintType], *constraint.TypesList).innerTypeNames[k][0] == '@'
+//@             ==> dom(c.alreadyProcessed, unbox(consOf(node).data[constraint.TypesListConstraintType], *constraint.TypesList).innerTypeNames[k]))
+//@   loop 0 invariant utWF(c) && (forall q string :: old(dom(c.alreadyProcessed, q)) ==> dom(c.alreadyProcessed, q)) && (c.userTypes.$arr == old(c.userTypes.$arr) || fresh(c.userTypes))
+//@   loop 0 invariant list.innerTypeNames.$arr != c.userTypes.$arr && (forall k :: 0 <= k && k < len(list.innerTypeNames) ==> list.innerTypeNames[k] == old(list.innerTypeNames[k]))
+//@   loop 0 invariant forall k :: 0 <= k && k <= rangeindex && list.innerTypeNames[k][0] == '@' ==> dom(c.alreadyProcessed, list.innerTypeNames[k])
+
+//@ func (*userTypesCollector).collectUserTypesFromAllOfConstraint(node)
+//@   props C09 C03
+//@   requires utWF(c) && isNode(node) && consReady(node)
+//@   assumes typeis(consOf(node).data[constraint.AllOfConstraintType], *constraint.AllOf) ==> ival(consOf(node).data[constraint.AllOfConstraintType]) != 0 && (forall k :: 0 <= k && k < len(unbox(consOf(node).data[constraint.AllOfConstraintType], *constraint.AllOf).schemaName) ==> len(unbox(consOf(node).data[constraint.AllOfConstraintType], *constraint.AllOf).schemaName[k]) > 0) && unbox(consOf(node).data[constraint.AllOfConstraintType], *constraint.AllOf).schemaName.$arr != c.userTypes.$arr
+//@   nopanic
+//@   modifies c.alreadyProcessed[*], c.userTypes, c.userTypes[*]
+//@   ensures utWF(c) && (forall q string :: old(dom(c.alreadyProcessed, q)) ==> dom(c.alreadyProcessed, q))
+//@   ensures c.userTypes.$arr == old(c.userTypes.$arr) || fresh(c.userTypes)
+//@   ensures typeis(consOf(node).data[constraint.AllOfConstraintType], *constraint.AllOf) ==> (forall k :: 0 <= k && k < len(unbox(consOf(node).data[constraint.AllOfConstraintType], *constraint.AllOf).schemaName) && unbox(consOf(node).data[constraint.AllOfConstraintType], *constraint.AllOf).schemaName[k][0] == '@'
+//@             ==> dom(c.alreadyProcessed, unbox(consOf(node).data[constraint.AllOfConstraintType], *constraint.AllOf).schemaName[k]))
+//@   loop 0 invariant utWF(c) && (forall q string :: old(dom(c.alreadyProcessed, q)) ==> dom(c.alreadyProcessed, q)) && (c.userTypes.$arr == old(c.userTypes.$arr) || fresh(c.userTypes))
+//@   loop 0 invariant allOf.schemaName.$arr != c.userTypes.$arr && (forall k :: 0 <= k && k < len(allOf.schemaName) ==> allOf.schemaName[k] == old(allOf.schemaName[k]))
+//@   loop 0 invariant forall k :: 0 <= k && k <= rangeindex && allOf.schemaName[k][0] == '@' ==> dom(c.alreadyProcessed, allOf.schemaName[k])
+
+//@ func (*userTypesCollector).collectUserTypesFromAdditionalPropertiesOfConstraint(node)
+//@   props C09
+//@   requires utWF(c) && isNode(node) && consReady(node)
+//@   assumes typeis(consOf(node).data[constraint.AdditionalPropertiesConstraintType], *constraint.AdditionalProperties) ==> ival(consOf(node).data[constraint.AdditionalPropertiesConstraintType]) != 0
+//@   nopanic
+//@   modifies c.alreadyProcessed[*], c.userTypes, c.userTypes[*]
+//@   ensures utWF(c) && (forall q string :: old(dom(c.alreadyProcessed, q)) ==> dom(c.alreadyProcessed, q))
+//@   ensures c.userTypes.$arr == old(c.userTypes.$arr) || fresh(c.userTypes)
+//@   ensures typeis(consOf(node).data[constraint.AdditionalPropertiesConstraintType], *constraint.AdditionalProperties) && unbox(consOf(node).data[constraint.AdditionalPropertiesConstraintType], *constraint.AdditionalProperties).mode == constraint.AdditionalPropertiesMustBeUserType
+//@             ==> (exists s string :: dom(c.alreadyProcessed, s) && spells(unbox(consOf(node).data[constraint.AdditionalPropertiesConstraintType], *constraint.AdditionalProperties).typeName, s))
+
+//@ func (*userTypesCollector).collectUserTypesFromTypeConstraint(node)
+//@   props C09
+//@   requires utWF(c) && isNode(node) && consReady(node)
+//@   assumes typeis(consOf(node).data[constraint.TypeConstraintType], *constraint.TypeConstraint) ==> ival(consOf(node).data[constraint.TypeConstraintType]) != 0 && len(unbox(consOf(node).data[constraint.TypeConstraintType], *constraint.TypeConstraint).value) <= 1000000000000 && old(decLen(unbox(consOf(node).data[constraint.TypeConstraintType], *constraint.TypeConstraint).value)) > 0
+//@   nopanic
+//@   modifies c.alreadyProcessed[*], c.userTypes, c.userTypes[*]
+//@   ensures utWF(c) && (forall q string :: old(dom(c.alreadyProcessed, q)) ==> dom(c.alreadyProcessed, q))
+//@   ensures c.userTypes.$arr == old(c.userTypes.$arr) || fresh(c.userTypes)
+//@   ensures typeis(consOf(node).data[constraint.TypeConstraintType], *constraint.TypeConstraint) && old(decAt(unbox(consOf(node).data[constraint.TypeConstraintType], *constraint.TypeConstraint).value, 0)) == '@'
+//@             ==> (exists s string :: dom(c.alreadyProcessed, s) && spellsDecoded(s, old(unbox(consOf(node).data[constraint.TypeConstraintType], *constraint.TypeConstraint).value)))
